@@ -2,6 +2,7 @@ package types
 
 import (
 	"fmt"
+	"math"
 )
 
 const (
@@ -68,6 +69,15 @@ func (p Params) Validate() error {
 		if err := validateUint64(f.name, f.isPositiveOnly)(f.val); err != nil {
 			return err
 		}
+	}
+
+	// the signing period is added to the block height and the attempt counter runs up to the maximum signing
+	// attempt: both must leave room for that uint64 arithmetic
+	if p.SigningPeriod > math.MaxInt64 {
+		return fmt.Errorf("signing period must not exceed %d: %d", int64(math.MaxInt64), p.SigningPeriod)
+	}
+	if p.MaxSigningAttempt > math.MaxInt64 {
+		return fmt.Errorf("max signing attempt must not exceed %d: %d", int64(math.MaxInt64), p.MaxSigningAttempt)
 	}
 
 	return nil
